@@ -687,6 +687,36 @@ def run(ctx):
     ctx.extra['scale_invariance'] = dict(cases=nsc, bit_exact=n_exact)
 
     lap('scale')
+    # ---- oracle (b1'): the same values in another container - Fortran-ordered, a transposed view, integer counts - give the same
+    # phase / frequency / amplitude (the transform is a function of the values)
+    ncont = 36 if q else 600
+    for i in range(ncont):
+        n = int(rs.choice([32, 48, 64, 96]))
+        ncol = int(rs.randint(2, 4))
+        x = np.round(200 * np.array([imf_like(rs, n, ['sin', 'amfm', 'noise'][int(rs.randint(0, 3))]) for _ in range(ncol)]).T)
+        method = METHODS[i % 3]
+        smooth = 5 if i % 4 else None
+        sr = float(rs.choice([128.0, 1000.0]))
+        cont = ['fortran', 'transposed-view', 'int64', 'int32'][i % 4]
+        y = {'fortran': np.asfortranarray(x), 'transposed-view': np.ascontiguousarray(x.T).T,
+             'int64': x.astype(np.int64), 'int32': x.astype(np.int32)}[cont]
+        inp = dict(kind='container', x=[[float(v).hex() for v in col] for col in x.T], sample_rate=sr, method=method, smooth=smooth, container=cont)
+        ctx.count(('container', i, method, smooth, cont), True, 'container-%s' % cont)
+        ctx.tol_cmp += 1
+        try:
+            a = call_ft(x, sr, method, smooth)
+            b = call_ft(y, sr, method, smooth)
+        except Exception as e:
+            violation('frequency_transform container', '%s on a %s copy of the values: raised %s: %s' % (method, cont, type(e).__name__, e), inp)
+            continue
+        for nm, u, v in zip(('phase', 'frequency', 'amplitude'), a, b):
+            u, v = np.asarray(u, dtype=float), np.asarray(v, dtype=float)
+            d = cdist(u, v) if nm == 'phase' else np.abs(u - v)
+            tol = 1e-9 * (1.0 + float(np.nanmax(np.abs(u))))
+            if u.shape != v.shape or not np.all((d <= tol) | (np.isnan(u) & np.isnan(v))):
+                violation('frequency_transform container', '%s: %s differs by %.3g between the float64 C-contiguous array and its %s copy '
+                          '(same values)' % (method, nm, float(np.nanmax(d)) if u.shape == v.shape else -1, cont), inp)
+                break
     # ---- oracle (b2): IMF sets that end in a non-oscillatory column (sift residual), all methods
     nmix = 48 if q else 900
     for i in range(nmix):
@@ -778,6 +808,14 @@ def unhex(l):
 
 
 def replay(rec):
+    if rec['input'].get('kind') == 'container':
+        i = rec['input']
+        x = np.array([unhex(c) for c in i['x']]).T
+        y = {'fortran': np.asfortranarray(x), 'transposed-view': np.ascontiguousarray(x.T).T, 'int64': x.astype(np.int64), 'int32': x.astype(np.int32)}[i['container']]
+        a, b = call_ft(x, i['sample_rate'], i['method'], i['smooth']), call_ft(y, i['sample_rate'], i['method'], i['smooth'])
+        worst = max(float(np.nanmax(cdist(a[0], b[0]))), float(np.nanmax(np.abs(a[1] - b[1]))), float(np.nanmax(np.abs(a[2] - b[2]))))
+        print('max deviation', worst)
+        return not worst <= 1e-9 * (1.0 + float(np.nanmax(np.abs(a[1]))) + float(np.nanmax(np.abs(a[2]))))
     from emd import spectra, utils
     i = rec['input']
     site = rec.get('site', '')
